@@ -366,6 +366,26 @@ func (c C12Save) indices(n int) []uint64 {
 	return idx
 }
 
+// newSaveContainer builds a container from the case's saved palette and the given data.
+func newSaveContainer(c C12Save, kind pal.Kind, data []uint64) (cont container, pv any) {
+	pv, _ = pbt.Try(func() {
+		if c.Kind == "blocks" {
+			p := make([]level.BlocksState, len(c.Palette))
+			for i, v := range c.Palette {
+				p[i] = level.BlocksState(v)
+			}
+			cont = blocksC{level.NewStatesPaletteContainerWithData(kind.Len, data, p)}
+		} else {
+			p := make([]level.BiomesState, len(c.Palette))
+			for i, v := range c.Palette {
+				p[i] = level.BiomesState(v)
+			}
+			cont = biomesC{level.NewBiomesPaletteContainerWithData(kind.Len, data, p)}
+		}
+	})
+	return
+}
+
 func c12CheckSave(c C12Save) *pbt.Violation {
 	kind := palBlocks
 	if c.Kind == "biomes" {
@@ -430,6 +450,28 @@ func c12CheckSave(c C12Save) *pbt.Violation {
 		if got != c.Palette[want[i]] {
 			return pbt.V("c12.withdata.value", "containers built from saved palette+data agree with the same reading (and no Set on another container changes them)",
 				"%s palette of %d entries (%d bits, %d longs): Get(%d)=%d, save form says palette[%d]=%d (Set calls on a sibling container built from the same slices: %v)", c.Kind, len(c.Palette), bits, len(data), i, got, want[i], c.Palette[want[i]], c.Muts)
+		}
+	}
+	// a container built from save data is a container like any other: the (mutated) sibling's wire form can
+	// be read into it
+	if len(c.Muts) > 0 {
+		var sb bytes.Buffer
+		if _, err := sibling.WriteTo(&sb); err != nil {
+			return pbt.V("c12.withdata.write", "WriteTo", "sibling WriteTo: %v", err)
+		}
+		twin, _ := newSaveContainer(c, kind, data)
+		var rerr error
+		if pv, stack := pbt.Try(func() { _, rerr = twin.ReadFrom(bytes.NewReader(sb.Bytes())) }); pv != nil {
+			return pbt.V(pbt.PanicKey("c12.withdata.readfrom", stack), "reading it into another container - however that container was used before",
+				"ReadFrom into a container built from save data (%s, palette of %d) panicked: %v", c.Kind, len(c.Palette), pv)
+		}
+		if rerr != nil {
+			return pbt.V("c12.withdata.readfrom.error", "reading it into another container", "ReadFrom into a save-built container: %v", rerr)
+		}
+		for i := 0; i < kind.Len; i++ {
+			if g := twin.Get(i); g != sibModel[i] {
+				return pbt.V("c12.withdata.readfrom.value", "reading it into another container preserves every position", "save-built destination: Get(%d)=%d, want %d", i, g, sibModel[i])
+			}
 		}
 	}
 	// and it must be writable to the wire like any other container
